@@ -46,9 +46,12 @@ func H12() {
 			xro = true
 		}
 		h12CheckNode(hcWalk(ms, append(append([]string{}, lv.steps...), "l"+idx)), xro, lv.ns, "leaf / leaf-list / list next to the next level")
-		// the choice and case wrappers carry no config statement: they inherit from above
+		// the choice carries the level's config statement or none; the case wrappers never do: they inherit
 		if lv.op == opChoiceCase || lv.op == opChoiceShort {
 			above := sc.hcExpectRO(k - 1)
+			if lv.onChoice {
+				above = ro // the config statement is written on the choice itself
+			}
 			h12CheckNode(hcWalk(ms, lv.steps[:len(lv.steps)-2]), above, lv.ns, "choice")
 			cw := "case"
 			if lv.op == opChoiceShort {
